@@ -9,12 +9,14 @@ import (
 )
 
 type EventStatistics struct {
-	document *gedcom.Document
+	document   *gedcom.Document
+	visibility LivingVisibility
 }
 
-func NewEventStatistics(document *gedcom.Document) *EventStatistics {
+func NewEventStatistics(document *gedcom.Document, visibility LivingVisibility) *EventStatistics {
 	return &EventStatistics{
-		document: document,
+		document:   document,
+		visibility: visibility,
 	}
 }
 
@@ -22,6 +24,12 @@ func (c *EventStatistics) WriteHTMLTo(w io.Writer) (int64, error) {
 	counts := map[string]int{}
 
 	for _, individual := range c.document.Individuals() {
+		// The events of hidden living individuals are not counted. The
+		// published site must not depend on them.
+		if c.visibility == LivingVisibilityHide && individual.IsLiving() {
+			continue
+		}
+
 		for _, event := range individual.AllEvents() {
 			counts[event.Tag().String()] += 1
 		}
